@@ -18,8 +18,42 @@ build() { # $1 = output name, $2 = extra overlay mode ("" | sched), $3.. = extra
   (cd "$REPO" && go build -tags verif -overlay "$BUILD/overlay-$out.json" "$@" -o "$BUILD/$out" ./zzverif/cmd/vcheck) || { echo "harness build failed" >&2; exit 2; }
 }
 
+# prepare_mutant <dir-with-patch.diff>: copies the files the patch touches from
+# the current /repo tree, applies the patch to the copies, and points
+# VERIF_MUTANT at the result (an overlay layer; /repo itself is not edited).
+prepare_mutant() {
+  local src=$1 name; name=$(basename "$(dirname "$src")")-$(basename "$src")
+  local dst=$BUILD/mut/$name
+  rm -rf "$dst"; mkdir -p "$dst/files"
+  for f in $(grep '^+++ b/' "$src/patch.diff" | sed 's#^+++ b/##'); do
+    mkdir -p "$dst/files/$(dirname "$f")"
+    [ -f "$REPO/$f" ] && cp "$REPO/$f" "$dst/files/$f"
+  done
+  (cd "$dst/files" && patch -s -p1 < "$src/patch.diff") || { echo "mutant patch does not apply: $src" >&2; exit 2; }
+  echo "$dst"
+}
+
 cmd=${1:-}
 case "$cmd" in
+  mutant)
+    # ./run.sh mutant <Cxx> <name> : (a) the repository's own tests of the affected packages must
+    # still pass with the change, (b) the quick check must report a violation.
+    id=$2; name=$3; src=$VERIF/mutants/$id/$name
+    [ -f "$src/patch.diff" ] || { echo "no such mutant: $src" >&2; exit 2; }
+    dst=$(prepare_mutant "$src") || exit 2
+    (cd "$VERIF/tools/mkoverlay" && go build -o "$BUILD/mkoverlay" . ) || exit 2
+    "$BUILD/mkoverlay" -repo "$REPO" -verif "$VERIF" -mode "" -out "$BUILD/overlay-mut.json" -gen "$BUILD/gen-mut" -mutant "$dst" -only-mutant || exit 2
+    pk=$(jq -r '.packages|join(" ")' "$src/meta.json")
+    echo "== repository tests with mutant $id/$name ($pk)"
+    if [ "${VERIF_SKIP_TESTS:-}" != 1 ]; then
+      (cd "$REPO" && go test -vet=off -count=1 -overlay "$BUILD/overlay-mut.json" $pk 2>&1 | grep -v "no test files" | tail -15; exit ${PIPESTATUS[0]}) || { echo "MUTANT-RESULT $id/$name: repository tests FAIL with this mutant (not a valid mutant)"; exit 3; }
+    fi
+    echo "== check $id quick with mutant"
+    tier=${4:-quick}
+    VERIF_MUTANT=$dst VERIF_EVIDENCE_DIR=$BUILD/mut-evidence "$0" "$id" $tier > "$BUILD/mut-$id-$name.log" 2>&1; rc=$?
+    grep -E "VIOLATION|^\[|KNOWN" "$BUILD/mut-$id-$name.log" | head -8
+    if [ $rc = 1 ] && grep -q "^VIOLATION property=$id " "$BUILD/mut-$id-$name.log"; then echo "MUTANT-RESULT $id/$name: DETECTED"; exit 0; fi
+    echo "MUTANT-RESULT $id/$name: MISSED (exit $rc)"; exit 1 ;;
   setup)
     build vcheck "" && build vcheck-sched sched && build vcheck-race sched -race && echo "setup ok"
     exit $? ;;
